@@ -19,4 +19,49 @@ theorem tie_constraints_validate (cs : List (Nat × Rat)) (gap : Nat) (d : Rat) 
   rw [hf]
   cases List.find? _ cs <;> rfl
 
+theorem foldl_push {β : Type} (acc l : List (β × Rat)) :
+    List.foldl (fun (acc : List (β × Rat)) (x : β × Rat) => match x with | (d, m) => acc ++ [(d, m)]) acc l = acc ++ l := by
+  induction l generalizing acc with
+  | nil => simp
+  | cons x xs ih => cases x; simp [ih]
+
+theorem dedupByAux_eq (prev : Constraints.Entry) (l : List Constraints.Entry) :
+    dedupByAux (fun (x y : Nat × Rat) => match x, y with | (e1, _), (e2, _) => decide (e1 = e2)) prev l
+      = Constraints.dedupAux prev l := by
+  induction l generalizing prev with
+  | nil => rfl
+  | cons b rest ih =>
+    obtain ⟨b1, b2⟩ := b
+    obtain ⟨p1, p2⟩ := prev
+    unfold dedupByAux Constraints.dedupAux
+    by_cases h : b1 = p1 <;> simp [h, ih]
+
+/-- `SpatioTemporalConstraints::add_constraints` as the source has it now (push every new entry, stable
+`sort_by` on the gap, `dedup_by` on equal gaps) is the model's `addConstraints` whenever the `assert!` on the
+limits holds (otherwise the code panics and the model answers `none`) -/
+theorem tie_add_constraints (cs new : List (Nat × Rat)) (hpos : new.all (fun e => decide (e.2 > 0)) = true) :
+    Constraints.addConstraints cs new = some (add_constraints cs new) := by
+  unfold Constraints.addConstraints add_constraints
+  simp only [hpos, if_true]
+  congr 1
+  have hpush := foldl_push cs new
+  simp only at hpush ⊢
+  rw [hpush]
+  have hle : (fun (a b : Nat × Rat) => ((fun (x y : Nat × Rat) => match x, y with | (e1, _), (e2, _) => compare e1 e2) a b) != Ordering.gt)
+      = Constraints.keyLE := by
+    funext a b
+    obtain ⟨a1, a2⟩ := a
+    obtain ⟨b1, b2⟩ := b
+    simp only [Constraints.keyLE]
+    rcases Nat.lt_trichotomy a1 b1 with h | h | h
+    · simp [Nat.compare_eq_lt.mpr h, Nat.le_of_lt h]
+    · simp [h]
+    · simp [Nat.compare_eq_gt.mpr h, Nat.not_le.mpr h]
+  rw [hle]
+  cases hs : (cs ++ new).mergeSort Constraints.keyLE with
+  | nil => rfl
+  | cons a rest =>
+    simp only [Constraints.dedupFirst, dedupBy]
+    rw [dedupByAux_eq]
+
 end SimVerif.Tie
